@@ -373,3 +373,57 @@ class Tee(Contract):
             ok = inside is tee and after is sink and tee.read() == "hello\n" and sink.getvalue() == "hello\n" and ((exc is not None) == raising)
             res.append({"name": f"stdout_restored_and_exception_not_swallowed[{'raising' if raising else 'normal'}]", "ok": ok, "detail": "", "function": "glotaran.utils.tee:TeeContext"})
         return res
+
+
+class OptionsReachTheOptimiser(Contract):
+    """A scheme whose options the optimiser itself refuses (`maximum_number_function_evaluations = 0`, all tolerances 0) is
+    refused: the options of the scheme reach `least_squares` exactly as they are - zero included - so that its error is the
+    one the caller sees (propagated, or InitialParameterError without a single evaluation); they are not replaced by defaults
+    behind the caller's back."""
+
+    prop = "C15"
+    name = "OptionsReachTheOptimiser"
+    target = "glotaran.optimization.optimizer:Optimizer.optimize"
+    modules = PIPE_MODS
+    trusted = TRUSTED_PIPE
+    strength = "S"
+    agreement_runs = 0
+
+    OPTIONS = {
+        "zero_evaluations": {"maximum_number_function_evaluations": 0},
+        "zero_tolerances": {"ftol": 0.0, "gtol": 0.0, "xtol": 0.0},
+        "one_zero_tolerance": {"ftol": 0.0},
+        "none_evaluations": {"maximum_number_function_evaluations": None},
+        "ordinary": {"maximum_number_function_evaluations": 7, "ftol": 1e-5, "gtol": 1e-6, "xtol": 1e-7},
+    }
+
+    def cases(self, tier):
+        for name in self.OPTIONS:
+            for method in ("TrustRegionReflection", "Dogbox", "Levenberg-Marquardt"):
+                yield {"options": name, "method": method}
+
+    def build(self, S, case):
+        b = harness.build(S, _cfg("one_unlinked"))
+        b.scheme.optimization_method = case["method"]
+        for k, v in self.OPTIONS[case["options"]].items():
+            setattr(b.scheme, k, v)
+        return b
+
+    def call(self, S, case, b):
+        from contracts.pipeline import run_optimizer
+
+        return run_optimizer(S, b, S.symbolic).trace.calls
+
+    def observe(self, out):
+        return out if isinstance(out, Raised) else None
+
+    def ensures(self, S, case, b, out):
+        if isinstance(out, Raised):
+            yield "no_exception_with_the_contract_stub", False
+            return
+        yield "least_squares_called_once", len(out) == 1
+        if len(out) != 1:
+            return
+        call, sch = out[0], b.scheme
+        same = lambda a, c: (a is None and c is None) or (a is not None and c is not None and type(a) is type(c) and a == c)  # noqa: E731
+        yield "options_of_the_scheme_reach_the_optimiser_unchanged", same(call["max_nfev"], sch.maximum_number_function_evaluations) and same(call["ftol"], sch.ftol) and same(call["gtol"], sch.gtol) and same(call["xtol"], sch.xtol)
